@@ -28,6 +28,8 @@ ASSUMPTIONS = ["codec libraries (lzma, bz2, zlib, ...) are correct", "supported 
 FT = 132223104000000000
 
 
+GEN_DEPS = ["read_uint64", "read_uint32", "read_real_uint64", "read_boolean", "read_crcs", "read_byte", "PackInfo.__init__", "PackInfo._read", "PackInfo.retrieve"]
+
 def gen_members(rng, n=None):
     n = rng.choice([1, 2, 3, 3, 4, 5, 6]) if n is None else n
     out = []
@@ -345,6 +347,13 @@ def fixtures(ctx, rep):
 def run(ctx):
     rep, tier = ctx["rep"], ctx["tier"]
     rng = random.Random(ctx["seed"])
+
+    try:
+        from harness import hdrgen
+        hdrgen.check_readers(ctx, rep, random.Random(ctx["seed"] ^ 0x7A3), tier)
+    except Exception as e:  # noqa
+        rep.violation("translation validation raised %s: %s" % (type(e).__name__, e),
+                      {"kind": "exception", "part": "hdrgen"}, concrete=False, match_keys={"kind": "exception", "part": "hdrgen"})
     rep.cov["rule"] = ("logical archives (1..6 members of kind file/empty/dir, sizes around 0/1/16/1000/5000) x layouts from the "
                        "independent reference writer: folder partitions, coder chains, CRC placement, packed CRCs, kDummy, EmptyFile, "
                        "NumUnpackStream omitted, raw/LZMA header, and one feature class per case in rotation (packpos>0, no "
